@@ -24,7 +24,7 @@ func init() {
 		technique: "runtime reference-model monitor: generated simple-schema definitions x typed Go values (every integer and float width, strings, typed and untyped slices nested to depth 4) are validated through NewParamValidator / NewHeaderValidator (recycling off and on) and the verdict is compared online with an independent exact-arithmetic model of simple-schema semantics",
 		rule: "definitions: type x compatible format x enum (JSON-decoded and programmatic typed) x numeric/string/array constraints x nested items (depth<=4), integral constraints on integer types; values: near the constraint boundaries in an exactly-representing random Go carrier, violations planted at a random nesting depth, 8% of a non-matching kind; distinct = FNV-64 of definition+value rendering; non-trivial = the definition carries >=1 constraint beyond its type, or nested items",
 		assumptions: []string{
-			"[]byte values, nil elements, empty-string header values and named string types are outside the compared domain (the library treats []byte as a base64 string and requires header values to be non-empty)",
+			"nil elements and named types are outside the compared domain; []uint8 slices and empty-string header values are inside it (both meet recorded findings: the library takes []byte for a binary string and builds the header's string validator with required=true)",
 			"the simple-schema model (harness/model/simple.go) is correct; exact rationals; Go regexp and strfmt.Default shared with the implementation as the property allows",
 			"sampled input space",
 		},
@@ -34,7 +34,7 @@ func init() {
 
 func (p *c16) Init(w *lib.Worker) error { return nil }
 
-func explainSimple(d *model.SimpleDef, v any, implValid bool, formats strfmt.Registry) []string {
+func explainSimple(d *model.SimpleDef, v any, implValid bool, formats strfmt.Registry, header bool) []string {
 	n := len(model.SimpleEmuNames)
 	masks := []int{}
 	for m := 1; m < 1<<n; m++ {
@@ -47,7 +47,7 @@ func explainSimple(d *model.SimpleDef, v any, implValid bool, formats strfmt.Reg
 		return masks[i] < masks[j]
 	})
 	for _, m := range masks {
-		c := &model.SimpleCtx{Formats: formats, Emu: model.SimpleEmuFromMask(m)}
+		c := &model.SimpleCtx{Formats: formats, Emu: model.SimpleEmuFromMask(m), Header: header}
 		if c.Valid(d, v, true) == implValid {
 			var keys []string
 			for i, name := range model.SimpleEmuNames {
@@ -124,7 +124,7 @@ func constrained(d *model.SimpleDef) bool {
 }
 
 func (p *c16) Run(w *lib.Worker, idx int, r *lib.Rand) lib.Case {
-	sg := &gen.SimpleGen{R: r}
+	sg := &gen.SimpleGen{R: r, ByteSlices: true}
 	d := sg.Definition(r.Range(0, 4))
 	isHeader := idx%3 == 2
 	if !isHeader {
@@ -134,9 +134,6 @@ func (p *c16) Run(w *lib.Worker, idx int, r *lib.Rand) lib.Case {
 	if idx%97 == 0 {
 		v = nil
 	}
-	if s, ok := v.(string); ok && s == "" && isHeader {
-		v = "h"
-	}
 	render := fmt.Sprintf("%s <- %T(%#v) header=%v", renderDef(d), v, v, isHeader)
 	c := lib.Case{Hash: lib.Hash64([]byte(render)), Nontrivial: constrained(d), Evals: 2}
 	// every fourth case runs with a caller-supplied registry which disagrees with strfmt.Default on the string formats
@@ -145,7 +142,7 @@ func (p *c16) Run(w *lib.Worker, idx int, r *lib.Rand) lib.Case {
 		formats, regName = altRegistry(), "alternative"
 	}
 	render += " registry=" + regName
-	mc := &model.SimpleCtx{Formats: formats}
+	mc := &model.SimpleCtx{Formats: formats, Header: isHeader}
 	want := mc.Valid(d, v, true)
 	if mc.OutOfDomain {
 		return lib.Case{Tags: []string{"out-of-domain"}}
@@ -188,7 +185,7 @@ func (p *c16) Run(w *lib.Worker, idx int, r *lib.Rand) lib.Case {
 	if plain.Valid == want {
 		return c
 	}
-	if keys := explainSimple(d, v, plain.Valid, formats); keys != nil {
+	if keys := explainSimple(d, v, plain.Valid, formats, isHeader); keys != nil {
 		c.Known = keys
 		c.KnownWhat = fmt.Sprintf("%s model=%v impl=%v %v", render, want, plain.Valid, plain.Errors)
 		c.Sample = sample
